@@ -67,13 +67,21 @@ func slice(slice []interface{}, parts []sliceParam) ([]interface{}, error) {
 	}
 	start, stop, step := computed[0], computed[1], computed[2]
 	result := []interface{}{}
+	// The distance to stop is compared with step before stepping so that
+	// i += step cannot overflow for steps close to the int limits.
 	if step > 0 {
 		for i := start; i < stop; i += step {
 			result = append(result, slice[i])
+			if stop-i <= step {
+				break
+			}
 		}
 	} else {
 		for i := start; i > stop; i += step {
 			result = append(result, slice[i])
+			if stop-i >= step {
+				break
+			}
 		}
 	}
 	return result, nil
